@@ -17,6 +17,13 @@ theorem bind_ok {α β : Type} {x : Res α} {f : α → Res β} {b : β} :
 theorem pure_ok {α : Type} {a b : α} : (pure a : Res α) = .ok b ↔ a = b := by
   simp [pure]
 
+/-- Decidable equality of outcomes (for the kernel-checked counterexamples). -/
+instance resDecEq {α : Type} [DecidableEq α] : DecidableEq (Res α)
+  | .ok a, .ok b => if h : a = b then isTrue (by rw [h]) else isFalse (by intro h'; cases h'; exact h rfl)
+  | .ub a, .ub b => if h : a = b then isTrue (by rw [h]) else isFalse (by intro h'; cases h'; exact h rfl)
+  | .ok _, .ub _ => isFalse (by intro h; cases h)
+  | .ub _, .ok _ => isFalse (by intro h; cases h)
+
 /-! ### event order -/
 
 /-- An event list made of OUT events only. -/
@@ -1192,6 +1199,180 @@ theorem doRestore_spec {t : Tree} (h : wfB t = true) (fx : Fixes)
         rw [hv'] at this; cases this
     rw [cursorSpec_none_of rfl he1 (by simp [hnall])]
     exact matches_hidden c0
+
+
+/-! ### the flags through a flush -/
+
+/-- What `tickit_window_expose` leaves alone. -/
+theorem expose_frame : ∀ (fuel : Nat) (t : Tree) (win : Nat) (r : Option Rect) (t' : Tree),
+    expose t fuel win r = .ok t' →
+    t'.wins = t.wins ∧ t'.root.needsRestore = t.root.needsRestore ∧
+    (t.root.needsExpose = true → t'.root.needsExpose = true) := by
+  intro fuel
+  induction fuel with
+  | zero => intro t win r t' h; simp [expose] at h
+  | succ f ih =>
+    intro t win r t' h
+    rw [expose] at h
+    simp only [bind_ok] at h
+    obtain ⟨w, _, h⟩ := h
+    split at h
+    · simp only [pure_ok] at h; subst h; exact ⟨rfl, rfl, fun hx => hx⟩
+    · split at h
+      · simp only [pure_ok] at h; subst h; exact ⟨rfl, rfl, fun hx => hx⟩
+      · split at h
+        · split at h
+          · simp only [pure_ok] at h; subst h; exact ⟨rfl, rfl, fun hx => hx⟩
+          · exact ih _ _ _ _ h
+        · split at h
+          · cases h
+          · simp only [pure_ok] at h; subst h; exact ⟨rfl, rfl, fun hx => hx⟩
+          · split at h
+            · cases h
+            · simp only [pure_ok] at h; subst h; exact ⟨rfl, rfl, fun _ => rfl⟩
+
+theorem set_root (t : Tree) (i : Nat) (w : Win) : (set t i w).root = t.root := rfl
+
+theorem hier_tail_flags {t t1 t' : Tree} {v : Bool} {fuel p : Nat} {r : Option Rect}
+    (h : (if v = true then expose t1 fuel p r else pure t1) = .ok t') (hr : t1.root = t.root) :
+    t'.root.needsRestore = t.root.needsRestore ∧ (t.root.needsExpose = true → t'.root.needsExpose = true) := by
+  split at h
+  · obtain ⟨_, h2, h3⟩ := expose_frame _ _ _ _ _ h
+    rw [hr] at h2 h3; exact ⟨h2, h3⟩
+  · simp only [pure_ok] at h; subst h; rw [hr]; exact ⟨rfl, fun hx => hx⟩
+
+theorem doHierarchyChange_flags {t : Tree} {fuel : Nat} {ch : Change} {p w : Nat} {t' : Tree}
+    (h : doHierarchyChange t fuel ch p w = .ok t') :
+    t'.root.needsRestore = t.root.needsRestore ∧ (t.root.needsExpose = true → t'.root.needsExpose = true) := by
+  unfold doHierarchyChange at h
+  simp only [bind_ok] at h
+  obtain ⟨pw, _, ww, _, h⟩ := h
+  split at h
+  · simp only [bind_ok, pure_ok] at h
+    obtain ⟨t1, ht1, h⟩ := h; subst ht1
+    exact hier_tail_flags h rfl
+  · simp only [bind_ok, pure_ok] at h
+    obtain ⟨t1, ht1, h⟩ := h; subst ht1
+    exact hier_tail_flags h rfl
+  · simp only [bind_ok, pure_ok] at h
+    obtain ⟨cs, _, w', _, t1, ht1, h⟩ := h; subst ht1
+    exact hier_tail_flags h rfl
+  · simp only [bind_ok, pure_ok] at h
+    obtain ⟨cs, _, t1, ht1, h⟩ := h; subst ht1
+    exact hier_tail_flags h rfl
+  · simp only [bind_ok, pure_ok] at h
+    obtain ⟨cs, _, t1, ht1, h⟩ := h; subst ht1
+    exact hier_tail_flags h rfl
+  · simp only [bind_ok, pure_ok] at h
+    obtain ⟨t1, ht1, h⟩ := h; subst ht1
+    exact hier_tail_flags h rfl
+  · simp only [bind_ok, pure_ok] at h
+    obtain ⟨cs, _, t1, ht1, h⟩ := h; subst ht1
+    exact hier_tail_flags h rfl
+
+theorem applyChanges_flags : ∀ (reqs : List Req) (t t' : Tree), applyChanges t reqs = .ok t' →
+    t'.root.needsRestore = t.root.needsRestore ∧ (t.root.needsExpose = true → t'.root.needsExpose = true) := by
+  intro reqs
+  induction reqs with
+  | nil => intro t t' h; simp only [applyChanges, pure_ok] at h; subst h; exact ⟨rfl, id⟩
+  | cons r rest ih =>
+    intro t t' h
+    simp only [applyChanges, bind_ok] at h
+    obtain ⟨t1, h1, h2⟩ := h
+    obtain ⟨a1, a2⟩ := doHierarchyChange_flags h1
+    obtain ⟨b1, b2⟩ := ih _ _ h2
+    exact ⟨b1.trans a1, fun hx => b2 (a2 hx)⟩
+
+/-- `cursorSpec` only reads the window store. -/
+theorem chainEnd_wins (ws : Array Win) (r1 r2 : Root) : ∀ (f win : Nat),
+    chainEnd { wins := ws, root := r1 } f win = chainEnd { wins := ws, root := r2 } f win := by
+  intro f
+  induction f with
+  | zero => intro win; rfl
+  | succ f ih =>
+    intro win
+    rw [chainEnd, chainEnd]
+    simp only [ih]
+
+theorem allVisible_wins (ws : Array Win) (r1 r2 : Root) : ∀ (f win : Nat),
+    allVisible { wins := ws, root := r1 } f win = allVisible { wins := ws, root := r2 } f win := by
+  intro f
+  induction f with
+  | zero => intro win; rfl
+  | succ f ih =>
+    intro win
+    rw [allVisible, allVisible]
+    simp only [ih]
+
+theorem absCell_wins (ws : Array Win) (r1 r2 : Root) : ∀ (f win : Nat) (l c : Int),
+    absCell { wins := ws, root := r1 } f win l c = absCell { wins := ws, root := r2 } f win l c := by
+  intro f
+  induction f with
+  | zero => intro win l c; rfl
+  | succ f ih =>
+    intro win l c
+    rw [absCell, absCell]
+    simp only [ih]
+
+theorem insideAll_wins (ws : Array Win) (r1 r2 : Root) : ∀ (f win : Nat) (l c : Int),
+    insideAll { wins := ws, root := r1 } f win l c = insideAll { wins := ws, root := r2 } f win l c := by
+  intro f
+  induction f with
+  | zero => intro win l c; rfl
+  | succ f ih =>
+    intro win l c
+    rw [insideAll, insideAll]
+    simp only [ih]
+
+theorem ownerIn_wins (ws : Array Win) (r1 r2 : Root) : ∀ (f win : Nat) (l c : Int),
+    ownerIn { wins := ws, root := r1 } f win l c = ownerIn { wins := ws, root := r2 } f win l c := by
+  intro f
+  induction f with
+  | zero => intro win l c; rfl
+  | succ f ih =>
+    intro win l c
+    rw [ownerIn, ownerIn]
+    simp only [ih]
+
+theorem cursorSpec_wins {t t' : Tree} (h : t'.wins = t.wins) : cursorSpec t' = cursorSpec t := by
+  cases t with
+  | mk ws r1 =>
+  cases t' with
+  | mk ws' r2 =>
+  simp only at h; subst h
+  unfold cursorSpec owner treeFuel
+  simp only [chainEnd_wins ws' r2 r1, allVisible_wins ws' r2 r1, absCell_wins ws' r2 r1, insideAll_wins ws' r2 r1,
+    ownerIn_wins ws' r2 r1]
+
+theorem applyAll_append (c0 : TermCursor) (a b : List TermCall) :
+    c0.applyAll (a ++ b) = (c0.applyAll a).applyAll b := by
+  simp [TermCursor.applyAll, List.foldl_append]
+
+/-- After a flush that had a restore or an expose pending, the terminal cursor is what the property demands of the
+    tree as it is after the flush (queued restacking applied). -/
+theorem flush_spec (fx : Fixes) {t : Tree} {out : FlushOut} (hf : flush fx t = .ok out)
+    (hl : t.root.needsLater = true) (hr : t.root.needsRestore = true ∨ t.root.needsExpose = true)
+    (hwf : wfB out.tree = true) (hroot : fx.hiddenRoot = true ∨ rootVisible out.tree = true) (c0 : TermCursor) :
+    (c0.applyAll out.calls).matches (cursorSpec out.tree) = true := by
+  unfold flush at hf
+  simp only [hl, Bool.not_true, Bool.false_eq_true, if_false, bind_ok] at hf
+  obtain ⟨t1, h1, hf⟩ := hf
+  obtain ⟨a1, a2⟩ := applyChanges_flags _ _ _ h1
+  simp only at a1 a2
+  have hrest : (flushExpose { t1 with root := { t1.root with changes := [] } }).root.needsRestore = true := by
+    unfold flushExpose
+    by_cases he : t1.root.needsExpose = true
+    · simp [he]
+    · rcases hr with hr | hr
+      · simp [he, a1, hr]
+      · exact absurd (a2 hr) he
+  unfold flushRestore at hf
+  simp only [hrest, if_true, bind_ok, pure_ok] at hf
+  obtain ⟨c2, hc2, hf⟩ := hf
+  subst hf
+  simp only at hwf hroot ⊢
+  rw [applyAll_append]
+  exact doRestore_spec hwf fx hroot hc2 _
 
 end WinFocus
 end Tickit
